@@ -14,6 +14,7 @@ def default_params(tier):
                                provide_bias=2)
     p["budget_mult"] = 5000
     p["only_den"] = 2
+    p["ladder"] = 4
     p["max_renders"] = 4 if tier == "quick" else 6
     p["size_hi"] = 40 if tier == "quick" else 60
     p["force"] = ["provide", "inject_default", "loops"]
